@@ -101,6 +101,10 @@ def run(ctx, chk, tier="quick"):
         "CLI wiring of -r."
     )
     chk.assumptions = ["numpy.isclose/allclose default tolerances are adequate for grid multiples"]
+    # the level that becomes the origin (the highest one without a reference, any on-grid one with a reference) must be a
+    # row of the level grid: the master-curve views join it
+    from .c13 import level_grid_rule
+    level_grid_rule(ctx, chk, "C09.O4")
     from ..sqlrules import conflict_clauses
     conflict_clauses(ctx, chk, "C09.O3", ("rise", "recession"), "curve-writes",
                      "with INSERT OR IGNORE / OR REPLACE a second assembly on a database that already holds a curve reports success while rows of the first assembly remain: the curve is anchored at the old origin, not at this run's reference level")
